@@ -434,6 +434,10 @@ func genScript(r *prng.R, fam string) string {
 		s.open = false
 		if s.policy == 3 || (s.policy == 2 && r.Chance(1, 2)) {
 			acts = append(acts, fmt.Sprintf("drain:%d", i)) // sees the close
+		} else if s.fill >= 2 && r.Chance(1, 2) {
+			// the consumer is behind: its forwarder holds a value and will linger for its grace period(s);
+			// half of the time wait that out (otherwise the following dumps are taken inside the grace window)
+			acts = append(acts, "settle")
 		}
 	}
 	timeoutDone := false
